@@ -88,7 +88,7 @@ class WrapperRig(H.H11Rig):
 
 
 OPENINGS = ["plain", "plain-post", "h2c", "h2c-body", "prior", "prior+frames", "websocket", "h2c-then-more", "h2c-chunked",
-            "h2c-empty-settings", "h2c-body-mid", "h2c-body-first", "websocket-ka", "websocket-mixed", "post-upgrade-websocket", "h2c-upper"]
+            "h2c-empty-settings", "h2c-body-mid", "h2c-body-first", "websocket-ka", "websocket-mixed", "post-upgrade-websocket", "h2c-upper", "websocket+frame"]
 
 
 def opening_bytes(kind):
@@ -144,6 +144,13 @@ def opening_bytes(kind):
             c.send_headers(1, [(b":method", b"GET"), (b":path", b"/pk"), (b":scheme", b"http"), (b":authority", b"example.com")], end_stream=True)
             data += c.data_to_send()
         return data, c
+    if kind == "websocket+frame":
+        # the client does not wait for the answer: a frame follows the handshake at once.  The application (below) decides
+        # only after it has been told more, so for every split the frame reaches the stream before the accept, and the
+        # stream refuses it (400): no byte read past the request may be lost at the switch from h11 to the WebSocket code
+        return (b"GET /ws HTTP/1.1\r\nHost: example.com\r\nUpgrade: websocket\r\nConnection: Upgrade\r\n"
+                b"Sec-WebSocket-Key: dGhlIHNhbXBsZSBub25jZQ==\r\nSec-WebSocket-Version: 13\r\n\r\n"
+                + bytes([0x81, 0x85, 0, 0, 0, 0]) + b"hello"), c
     if kind in ("websocket", "websocket-ka", "websocket-mixed"):
         # the Connection header as browsers send it: Firefox lists keep-alive first; tokens are case-insensitive
         conn = {"websocket": b"Upgrade", "websocket-ka": b"keep-alive, Upgrade", "websocket-mixed": b"keep-alive,  UPGRADE "}[kind]
@@ -190,6 +197,8 @@ def e2e_outcome(kind, split):
     resp = [("recv_all",), ("send", {"type": "http.response.start", "status": 200, "headers": [(b"x-proto", b"1")]}),
             ("send", {"type": "http.response.body", "body": b"ok"})]
     ws = [("recv",), ("send", {"type": "websocket.accept"}), ("recv_until_disconnect",)]
+    if kind == "websocket+frame":
+        ws = [("recv",), ("recv",), ("send", {"type": "websocket.accept"}), ("recv_until_disconnect",)]
     app = S.scripted_app([ws if kind.startswith("websocket") else resp] * 3, records, d)
     alpn = "h2" if kind == "alpn" else "http/1.1"
     rig = S.ProtoRig(app, cfg, d, alpn=alpn, ssl=(kind == "alpn"))
@@ -246,6 +255,7 @@ EXPECT = {
     "websocket": {"scopes": [("websocket", "1.1", "/ws")], "wire": b"HTTP/1.1 101 "},
     "websocket-ka": {"scopes": [("websocket", "1.1", "/ws")], "wire": b"HTTP/1.1 101 "},
     "websocket-mixed": {"scopes": [("websocket", "1.1", "/ws")], "wire": b"HTTP/1.1 101 "},
+    "websocket+frame": {"scopes": [("websocket", "1.1", "/ws")], "wire": b"HTTP/1.1 400 "},
     "h2c": {"scopes": [("http", "2", "/up"), ("http", "2", "/after")], "wire": b"HTTP/1.1 101 ",
             "h2": [("ResponseReceived", 1), ("ResponseReceived", 3), ("StreamEnded", 1), ("StreamEnded", 3)]},
     "h2c-upper": {"scopes": [("http", "2", "/up"), ("http", "2", "/after")], "wire": b"HTTP/1.1 101 ",
